@@ -277,6 +277,10 @@ def check_basis(part, basis, L, tag, semantic="table", deep=0, full_scratch_verd
     case0 = {"basis": basis, "L": L, "deep": deep, "full": full_scratch_verdict}
     fresh_dir(tag)
     _clear(PW.load_dfa_for_perm)
+    if BASE_ATTRS is not None:
+        # every basis starts from the pristine module/class attributes, so that a recorded case
+        # is self-contained; state leaking between calls is the business of the history search
+        _restore_attrs(BASE_ATTRS)
     try:
         A = PW.make_dfa_for_basis(list(B))
         PA = to_plain(A)
@@ -560,7 +564,24 @@ def check_mlang(part, maxlen=6):
 # --------------------------------------------------------------------------------------------
 
 HBASES_QUICK = [[(0, 1)], [(1, 0), (0, 1)], [(0,)]]
-HBASES_SECOND = [[(0, 2, 1)], [(1, 0), (0, 2, 1)], [(1, 0)]]      # thorough: a second, separate model
+HBASES_THOROUGH = HBASES_QUICK + [[(0, 2, 1), (1, 0)]]
+
+
+def _canon_value(v):
+    """Hashable description of a value; automata up to renaming of states (their repr is not
+    stable from call to call)."""
+    if hasattr(v, "transitions") and hasattr(v, "initial_state") and hasattr(v, "final_states"):
+        try:
+            return ("DFA", F.canonical_form(to_plain(v)))
+        except Exception:  # noqa
+            return ("automaton", repr(v))
+    if isinstance(v, dict):
+        return ("dict", tuple(sorted(((repr(k), _canon_value(x)) for k, x in v.items()), key=repr)))
+    if isinstance(v, (list, tuple)):
+        return ("seq", tuple(_canon_value(x) for x in v))
+    if isinstance(v, (set, frozenset)):
+        return ("set", tuple(sorted((_canon_value(x) for x in v), key=repr)))
+    return repr(v)
 
 
 def lib_state():
@@ -574,7 +595,7 @@ def lib_state():
     for k, v in sorted(vars(mod).items()):
         if k.startswith("__") or isinstance(v, skip) or callable(v):
             continue
-        out.append(("mod", k, repr(v)))
+        out.append(("mod", k, _canon_value(v)))
     for k, v in sorted(vars(mod.PinWords).items()):
         if k.startswith("__"):
             continue
@@ -586,8 +607,49 @@ def lib_state():
             if f.__defaults__ or f.__kwdefaults__:
                 out.append(("defaults", k, repr(f.__defaults__), repr(f.__kwdefaults__)))
         elif not callable(f):
-            out.append(("attr", k, repr(v)))
+            out.append(("attr", k, _canon_value(v)))
     return tuple(out)
+
+
+def _cp(v):
+    """Copy of the container structure only (automata are immutable and cannot be deep-copied)."""
+    if isinstance(v, dict):
+        return {k: _cp(x) for k, x in v.items()}
+    if isinstance(v, list):
+        return [_cp(x) for x in v]
+    if isinstance(v, set):
+        return set(v)
+    return v
+
+
+def _plain_attrs():
+    """Non-callable attributes of the PinWords class and of its module (candidates for state
+    hoisted out of a call), name -> value (containers copied)."""
+    import sys
+    import types
+    mod = sys.modules["permuta.permutils.pin_words"]
+    out = {}
+    for where, holder in (("mod", mod), ("cls", mod.PinWords)):
+        for k, v in vars(holder).items():
+            if k.startswith("__") or callable(v) or \
+                    isinstance(v, (classmethod, staticmethod, property, types.ModuleType)):
+                continue
+            out[(where, k)] = _cp(v)
+    return out
+
+
+def _restore_attrs(saved):
+    import sys
+    mod = sys.modules["permuta.permutils.pin_words"]
+    holders = {"mod": mod, "cls": mod.PinWords}
+    for (where, k) in list(_plain_attrs()):
+        if (where, k) not in saved:
+            delattr(holders[where], k)
+    for (where, k), v in saved.items():
+        setattr(holders[where], k, _cp(v))
+
+
+BASE_ATTRS = None     # attributes of the module / class as they were before the run touched them
 
 
 class DbHistory:
@@ -599,6 +661,9 @@ class DbHistory:
 
     def __init__(self, tag, L, hbases):
         PW, Perm = _PW(), _P()
+        base = _plain_attrs()
+        if BASE_ATTRS is not None:
+            _restore_attrs(BASE_ATTRS)
         self.tag, self.L = tag, L
         self.hbases = [[tuple(p) for p in b] for b in hbases]
         self.B = [[Perm(p) for p in b] for b in self.hbases]
@@ -614,7 +679,7 @@ class DbHistory:
                      + [("create", n) for n in lens])
         self.product_states = 0
         self.executed = 0
-        self.snap = {(): ((), (), False)}
+        self.snap = {(): ((), (), BASE_ATTRS if BASE_ATTRS is not None else base)}
 
     def observe(self, op, cached):
         """Run one operation; return None or a description of what is wrong.  `cached` is the
@@ -667,13 +732,30 @@ class DbHistory:
                     files.append((os.path.relpath(p, d), fh.read()))
         return tuple(sorted(files))
 
+    @staticmethod
+    def canon_files(files):
+        """File contents up to renaming of automaton states: the library's repr numbers the
+        states differently from call to call (observed: two texts for the same permutation
+        within one process), which is irrelevant to every later answer."""
+        import sys
+        ns = dict(vars(sys.modules["permuta.permutils.pin_words"]))
+        out = []
+        for rel, content in files:
+            try:
+                form = F.canonical_form(to_plain(eval(content.split("\n")[0].strip(), ns)))  # noqa: S307
+            except Exception:  # noqa
+                form = content
+            out.append((rel, form))
+        return tuple(out)
+
     def build(self, hist):
         PW, Perm = _PW(), _P()
         hist = tuple(tuple(op) for op in hist)
         k = len(hist)
         while hist[:k] not in self.snap:
             k -= 1
-        files, cached, _ = self.snap[hist[:k]]
+        files, cached, attrs = self.snap[hist[:k]]
+        _restore_attrs(attrs)
         d = fresh_dir(self.tag)
         for rel, content in files:
             os.makedirs(os.path.dirname(os.path.join(d, rel)), exist_ok=True)
@@ -697,8 +779,9 @@ class DbHistory:
                 v = {"op": op, "exception": repr(exc)}
             if v is not None and hi == last:
                 viols.append(v)
-            self.snap[hist[:hi + 1]] = (self.read_files(d), tuple(sorted(cached, key=repr)), None)
-        canon = (self.read_files(d), tuple(sorted(cached, key=repr)), lib_state())
+            self.snap[hist[:hi + 1]] = (self.read_files(d), tuple(sorted(cached, key=repr)),
+                                        _plain_attrs())
+        canon = (self.canon_files(self.read_files(d)), tuple(sorted(cached, key=repr)), lib_state())
         return canon, viols
 
 
@@ -716,7 +799,9 @@ def shard_history(shard):
         part.violation("history", {"history": [list(op) for op in hist], "L": L,
                                    "bases": model.hbases}, v)
 
-    st = bfs([()], model.menu, model.build, depth, on_violation)
+    st = bfs([()], model.menu, model.build, depth, on_violation, max_states=4000)
+    if st.capped:
+        part.bump("history_state_cap_hit")
     part.add(st.transitions, st.transitions)
     part.bump("history_states", st.states)
     part.bump("history_transitions", st.transitions)
@@ -831,6 +916,9 @@ def run(ctx, only=None):
         "automaton itself has no rejected word that long; otherwise the case is counted as "
         "inconclusive (counter finite_beyond_horizon_inconclusive, 0 on the current tree)",
     ]
+    global BASE_ATTRS
+    _PW()
+    BASE_ATTRS = _plain_attrs()
     bases, longs = pool(quick)
     if quick:
         klen = {4: 12, 5: 11, 6: 0}
@@ -866,8 +954,8 @@ def run(ctx, only=None):
         ctx.bounds["pinword"] = {"pin_words": len(words), "max_pinword_length": maxu,
                                  "M_word_lengths": "2..%d" % Lu}
     if want("history"):
-        depth = 8 if quick else 10
-        models = [HBASES_QUICK] if quick else [HBASES_QUICK, HBASES_SECOND]
+        depth = 8 if quick else 12       # closure is reached at depth 4 / 5 (checked: else cap)
+        models = [HBASES_QUICK] if quick else [HBASES_THOROUGH]
         for mi, hb in enumerate(models):
             tasks.append(("history", (mi, depth, 7, hb)))
         ctx.bounds["history"] = {"max_depth": depth, "models": models,
@@ -906,6 +994,8 @@ def run(ctx, only=None):
                 ctx.bounds["history"]["new_states_per_depth"].append(res[3])
                 if res[3] and res[3][-1] != 0:
                     ctx.cap("history search stopped at depth %d before closure" % depth)
+        if ctx.counters.get("history_state_cap_hit"):
+            ctx.cap("history search stopped at 4000 states")
         # report the smallest case of every kind first
         ctx.viols.sort(key=lambda v: (len(json.dumps(v["case"].get("basis", v["case"]))),
                                       len(json.dumps(v["case"]))))
@@ -980,24 +1070,47 @@ def replay(ctx, rec):
         check_mlang(ctx)
     elif sub == "history":
         L = case.get("L", 7)
-        setup_bits([])
-        KLEN.clear()
-        KLEN.update({4: L})
-        TABLE.clear()
-        for w, (st, m) in table_prefixes(L).items():
-            TABLE[w] = m
-        for n in range(2, L + 1):
-            WORDS[n] = F.m_words(n)
+        _small_table(L)
         model = DbHistory("replay", L, case.get("bases", HBASES_QUICK))
         hist = tuple(tuple(op) for op in case["history"])
         for i in range(1, len(hist) + 1):
-            model.snap = {(): ((), (), False)}
+            model.snap = {(): model.snap[()]}
             _, viols = model.build(hist[:i])
             if viols:
                 ctx.violation("history", case, viols[0])
                 break
+    elif sub == "uncaught-library-exception" and "shard" in case:
+        # a library exception that escaped every call-site handler: run that shard again
+        kind, payload = case["shard"]
+        part = Partial()
+        try:
+            if kind == "basis":
+                _, basis, L, deep, full = payload
+                check_basis(part, basis, L, "replay", "tree", deep, full)
+            elif kind == "pinwords":
+                for u in payload[0]:
+                    check_pinword(part, u, payload[1], use_table=False)
+            elif kind == "history":
+                mi, depth, L, hb = payload
+                _small_table(L)
+                shard_history((mi, depth, L, hb))
+        except Exception as exc:  # noqa
+            ctx.violation(sub, case, {"exception": repr(exc)})
+        for v in part.viols[:1]:
+            ctx.violation(sub, case, v["detail"])
     else:
         raise ValueError("unknown sub-check %r" % sub)
+
+
+def _small_table(L):
+    setup_bits([])
+    KLEN.clear()
+    KLEN.update({4: L})
+    TABLE.clear()
+    for w, (st, m) in table_prefixes(L).items():
+        TABLE[w] = m
+    for n in range(2, L + 1):
+        WORDS[n] = F.m_words(n)
 
 
 def replay_basis(ctx, basis, L, case, sub):
